@@ -288,6 +288,13 @@ fn std_offset_hours(tz: Tz) -> f64 {
 }
 
 /// 3-5. an accepted pair yields a zone and evaluates; physical ordering below 60 degrees
+thread_local! {
+    /// whether `check_site` first evaluates the same coordinates under another explicit zone. Off
+    /// where ANOTHER place is the history under test: the same coordinates evaluated just before
+    /// would refresh a memo keyed on the date only and hide what that probe is after.
+    static SAME_COORDS_HISTORY: std::cell::Cell<bool> = const { std::cell::Cell::new(true) };
+}
+
 fn check_site(lat: f64, lon: f64, date: NaiveDate, rep: &mut Report) -> Result<(), String> {
     let coords = Coordinates::new(lat, lon).ok_or_else(|| format!("valid pair ({lat}, {lon}) rejected"))?;
     let loc = guarded(|| TzLocation::from_coords(coords)).map_err(|p| format!("TzLocation::from_coords({lat}, {lon}) panicked: {p}"))?;
@@ -299,12 +306,14 @@ fn check_site(lat: f64, lon: f64, date: NaiveDate, rep: &mut Report) -> Result<(
     // hostile history (not judged itself): the same coordinates under another, explicit zone are
     // evaluated on the same dates just before the context under test
     let other_zone = if tz == chrono_tz::UTC { chrono_tz::Asia::Tokyo } else { chrono_tz::UTC };
-    let _ = guarded(|| {
-        let h = OpeningHours::parse("dawn-dusk; sunrise-sunset unknown").unwrap().with_context(Context::default().with_locale(TzLocation::new(other_zone).with_coords(coords)));
-        let _ = h.schedule_at(date);
-        let _ = h.schedule_at(date.succ_opt().unwrap_or(date));
-    });
-    rep.count("hostile_history_same_coordinates_other_zone");
+    if SAME_COORDS_HISTORY.with(|h| h.get()) {
+        let _ = guarded(|| {
+            let h = OpeningHours::parse("dawn-dusk; sunrise-sunset unknown").unwrap().with_context(Context::default().with_locale(TzLocation::new(other_zone).with_coords(coords)));
+            let _ = h.schedule_at(date);
+            let _ = h.schedule_at(date.succ_opt().unwrap_or(date));
+        });
+        rep.count("hostile_history_same_coordinates_other_zone");
+    }
     let oh = OpeningHours::parse("sunrise-sunset").unwrap().with_context(ctx.clone());
     let oh2 = OpeningHours::parse("dawn-dusk").unwrap().with_context(ctx);
     // the very first evaluation in this context is kept and judged below (so that whatever was
@@ -545,6 +554,7 @@ pub fn run(args: &Args, rep: &mut Report) {
         // evaluation history must not matter: another place is evaluated on the neighbouring
         // dates immediately before (a memoised solar day keyed on too little would be reused)
         if k % 2 == 0 {
+            SAME_COORDS_HISTORY.with(|h| h.set(false));
             let c = r.pick(&CITIES);
             for d in [date.succ_opt(), Some(date), date.pred_opt()].into_iter().flatten() {
                 if let Err(msg) = check_site(c.1, c.2, d, rep) {
@@ -558,6 +568,7 @@ pub fn run(args: &Args, rep: &mut Report) {
                 }
             }
             rep.count("history_interference_probes");
+            SAME_COORDS_HISTORY.with(|h| h.set(true));
         }
         match check_site(lat, lon, date, rep) {
             Ok(()) => {
@@ -587,6 +598,7 @@ pub fn run(args: &Args, rep: &mut Report) {
 pub fn replay(case: &Value, rep: &mut Report) {
     rep.evaluations += 1;
     if let (Some(lat), Some(lon), Some(date)) = (case["before"]["lat"].as_f64(), case["before"]["lon"].as_f64(), case["before"]["date"].as_str().and_then(|s| s.parse::<NaiveDate>().ok())) {
+        SAME_COORDS_HISTORY.with(|h| h.set(false));
         let _ = check_site(lat, lon, date, rep);
     }
     if let (Some(lat), Some(lon), Some(date)) = (case["lat"].as_f64(), case["lon"].as_f64(), case["date"].as_str().and_then(|s| s.parse::<NaiveDate>().ok())) {
